@@ -253,6 +253,8 @@ class C17(core.PropBase):
         return i[0] == "ok" and i != m
 
     def shrink_candidates(self, case):
+        if case.get("kind") == "env" or not isinstance(case.get("doc", {}).get("steps"), list):
+            return
         for c in c05.PROP.shrink_candidates(dict(case, envs=[])):
             c.pop("envs", None)
             yield c
